@@ -1,22 +1,48 @@
 """Per-property claims (source of MANIFEST.json; tools/gen_manifest.py renders it)."""
 HOOK_COMMITS = []
 ENGINES = [
-    {"name": "lean-model", "path": "lean/", "serves_properties": ["C01", "C02", "C03", "C04", "C05", "C06", "C07", "C08", "C09", "C10", "C13", "C15", "C18", "C19", "C11", "C12", "C16", "C17", "C20"],
+    {"name": "lean-model", "path": "lean/", "serves_properties": ["C01", "C02", "C03", "C04", "C05", "C06", "C07", "C08", "C09", "C10", "C13", "C14", "C15", "C18", "C19", "C11", "C12", "C16", "C17", "C20"],
      "kind_free_text": "Lean 4 library Dbus (Spec, Model, Proofs, Props) + compiled line-protocol driver dbus-model"},
-    {"name": "tabulator", "path": "gen/", "serves_properties": ["C01", "C02", "C03", "C04", "C05", "C06", "C07", "C08", "C09", "C10", "C13", "C15", "C18", "C19", "C11", "C12", "C16", "C17", "C20"],
+    {"name": "tabulator", "path": "gen/", "serves_properties": ["C01", "C02", "C03", "C04", "C05", "C06", "C07", "C08", "C09", "C10", "C13", "C14", "C15", "C18", "C19", "C11", "C12", "C16", "C17", "C20"],
      "kind_free_text": "C translation units that #include repo sources and print finite tables; rendered to lean/Dbus/Generated"},
-    {"name": "h-lib", "path": "harness/lib/", "serves_properties": ["C01", "C02", "C03", "C04", "C05", "C06", "C07", "C08", "C09", "C10", "C13", "C15", "C18", "C19", "C11", "C12", "C16", "C17", "C20"],
+    {"name": "h-lib", "path": "harness/lib/", "serves_properties": ["C01", "C02", "C03", "C04", "C05", "C06", "C07", "C08", "C09", "C10", "C13", "C14", "C15", "C18", "C19", "C11", "C12", "C16", "C17", "C20"],
      "kind_free_text": "in-process C harnesses linked against the ASan/UBSan build of the working tree"},
 ]
 PENDING = "not implemented yet in this round (planned, see DESIGN.md §4/§7); no check is claimed"
-NOT_APPLICABLE = {p: PENDING for p in
-                  ["C14"]}
+NOT_APPLICABLE = {}
 BUS_TIE = ("The bus model (lean/Dbus/Model/Bus: dispatch, driver methods, registry, match delivery, policy gate, pending replies, "
            "disconnect cleanup; method table regenerated from bus/driver.c) is tied to the real dbus-daemon (ASan/UBSan build of the working "
            "tree) by generated histories over raw sockets: after every operation every connection's received messages and every "
            "connection closed by the bus must equal what the model's step emits; disagreements are classified by a trace oracle "
            "written independently of the model. ")
 CHECKS = {
+    "C14": {
+        "text": "Proved in Lean: (1) the contract of a request that runs out of memory (Dbus.Model.Bus.stepOom: the state is untouched and the caller gets "
+                "exactly one error named NoMemory, from the bus, carrying its serial: oom_changes_nothing); (2) for the mechanism that is to deliver it for "
+                "name ownership (lean/Dbus/Model/Bus/Oom.lean: bus_service_add_owner / remove_owner / swap_owner edit the queue eagerly and leave the "
+                "cancel hooks of bus/services.c, which bus_transaction_cancel_and_free runs newest first) that each hook is a left inverse of its edit on "
+                "every well-formed queue (undo_addOwner, undo_removePrimary, undo_swap) and that any sequence of hooked edits followed by cancel gives back "
+                "exactly the queue it started from, order and flags included (cancel_restores, replace_then_cancel); the edits that register no hook do "
+                "not (f22_witness, f23_witness: recorded findings). Tie, bus half: harness/lib/h_oom.c runs the real bus and its clients in one process "
+                "(debug-pipe transport, as bus/dispatch.c's tests do) with libdbus' own allocation-failure counter armed on the bus side only; from prior "
+                "states reached by generated histories (contended names with all flag combinations, match rules, outstanding calls, disconnects) the "
+                "request under test (Hello, RequestName, ReleaseName, AddMatch, RemoveMatch, a routed call, signal or reply) is repeated with its 1st, "
+                "2nd, ... last allocation failing, plus pairs of failures; every trial is a forked child that then shows what every client received, runs "
+                "destructive probes (ListNames, ListQueuedOwners, probe signals against the rule pool, every client answering every outstanding call, "
+                "take-over requests revealing the owners' flags), tears everything down and reports the allocations still outstanding (and LeakSanitizer). "
+                "Each trial must equal the Lean bus model's full outcome (libdbus retried) or its out-of-memory outcome - nothing in between -, nothing may "
+                "stay allocated, and after an out-of-memory outcome the repeated request must give the full outcome. Library half, in process with the "
+                "same injector: header edits on generated messages (bytes unchanged by a failed edit, = model when let through), message construction / "
+                "copy / marshalling, the match-rule parser and the configuration loader on generated inputs (NoMemory, nothing left allocated, result = "
+                "model or loads with memory available). Found and repaired in /repo by this check: F20 (ListQueuedOwners leaked its list), F21 (the "
+                "rollback of a removed or demoted owner asserted / corrupted the queue), F25 (a failed header edit left wrong padding); recorded: F22, "
+                "F23, F24, F26, F27.",
+        "note": "Partial: leak-freedom is an observation (outstanding-allocation count after full teardown, LeakSanitizer), not a theorem; the mechanism "
+                "theorems cover the owner queue only (pending replies, match rules and pending activations are tied by the harness, not mirrored "
+                "hook by hook); no failure is injected into dbus_message_iter_append_* (documented to leave the message unusable, F27) nor into "
+                "activation; allocation failures inside the clients' own libdbus are outside (the counter is armed around the bus's loop only); "
+                "'every pair' is sampled (a second failure j allocations after the first), not exhaustive.",
+    },
     "C19": {
         "text": "Proved in Lean over the activation layer of the bus model (lean/Dbus/Model/Bus/Activation.lean: bus_activation_activate_service, "
                 "the auto-start branch of bus_dispatch, StartServiceByName, bus_activation_service_created and "
